@@ -1,6 +1,6 @@
 """Writes /verif/known_findings.json (committed; never modified at run time)."""
 import json
-SEMP = ["C01", "C02", "C03", "C04", "C05", "C06", "C07", "C08", "C29", "C13", "C19", "C20", "C21", "C22", "C23", "C25", "C26", "C31"]
+SEMP = ["C01", "C02", "C03", "C04", "C05", "C06", "C07", "C08", "C29", "C30", "C13", "C19", "C20", "C21", "C22", "C23", "C25", "C26", "C31"]
 F = []
 
 def known(id, props, what, witness, match=None, match_any=None):
@@ -72,7 +72,7 @@ known("KF11-python-equality-stricter-than-unification", ["C18"],
                  {"clause": "eq-differs-from-unification", "cause": "same-text-different-class"},
                  {"clause": "eq-differs-from-unification", "cause": "negation-spelling"}])
 
-EXP_CL = ["prob", "missing-instance", "spurious-answer", "export-changes-answer", "crash", "wrong-error", "answered-inconsistent-evidence", "spurious-inconsistent-evidence"]
+EXP_CL = ["negative-cycle-on-stratified", "prob", "missing-instance", "spurious-answer", "export-changes-answer", "crash", "wrong-error", "answered-inconsistent-evidence", "spurious-inconsistent-evidence"]
 known("KF12-to-prolog-merges-groundings-of-an-ad", ["C25"],
       "to_prolog prints every grounding of an annotated disjunction as the same clause and merges the auxiliary bodies of the groundings (0.3::a; 0.4::b :- h, \\+aux_1. printed twice with aux_1 :- g(c1). aux_1 :- g(c2).): the exported text has a different distribution",
       "0.1::g(c1). 0.6::g(c2). 0.5::h. 0.3::a; 0.4::b :- d(Y), h, \\+g(Y). d(c1). d(c2). query(a).",
@@ -93,7 +93,8 @@ known("KF17-sampler-propagate-evidence-rejects-everything", ["C22"],
 known("KF18-sampler-propagate-evidence-distribution", ["C22"],
       "sample --propagate-evidence forces the propagated atoms (probability 1.0 / 0.0) but does not renormalise the remaining mass of annotated disjunctions nor condition the other choices, so the samples do not follow P(. | evidence)",
       "0.4::a; 0.3::b; 0.1::c. query(c). evidence(a,false). evidence(\\+b).   frequency of c is 0.1, P(c | evidence) = 1/3",
-      match={"clause": "sample-distribution", "variant": "propagate_evidence"})
+      match_any=[{"clause": "sample-distribution", "variant": "propagate_evidence"},
+                 {"clause": "accepts-impossible-evidence", "variant": "propagate_evidence"}])
 
 known("KF19-py2pl-tuple-encoding-not-injective", ["C28"],
       "py2pl encodes the tuple (a, b, c) as ','(a, ','(b, c)), the same term as (a, (b, c)): a tuple nested in the LAST position of a tuple is flattened by the round trip (TLC finds the counterexample on the encoding model PyPlMC_all.cfg)",
@@ -147,6 +148,24 @@ known("KF21-dt-score-zero-when-no-decision-is-relevant", ["C21"],
       "when no decision fact is reached while grounding the utility atoms, dtproblog returns the empty strategy with score 0.0 ('no decisions found') instead of the expected utility of the (decision-independent) program",
       "0.6::f. 0.1::g. 0.6::h. c :- h, f, g. ?::d1. utility(c, 2).   score 0.0, expected utility 0.072",
       match={"clause": "reported-score", "no_decision_grounded": True})
+known("KF22-negative-cycle-detection-depends-on-order", ["C03", "C04", "C06", "C07", "C08"],
+      "on programs whose ground dependency graph has a cycle through negation (not 'must answer'), whether NegativeCycle is raised depends on the evaluation order / options: the same program is rejected with NegativeCycle under one schedule and reaches evaluation (answers or InconsistentEvidenceError) under another",
+      "0.1::f(c1). d(c1). d(c2). p(c2) :- d(X), d(Y), f(Y), \\+f(X). p(X) :- f(X), p(Y). q(c1,X) :- d(X), p(c2), f(c1). r :- d(Y), \\+q(Y,c1), \\+p(Y). s(Y) :- d(Y), s(X), \\+f(c1). s(c1) :- r, s(X). query(s(V)). query(s(c1)). query(q(W,c2)). evidence(f(c2)).",
+      match_any=[{"clause": c, "error": "NegativeCycle", "class": k} for c in ["schedule-dependent", "mode-dependent", "option-dependent", "order-dependent", "history-dependent"] for k in ["either", "mustReject"]]
+               + [{"clause": "mode-dependent", "variant": v, "class": k} for v in ("unbuf", "rc", "rand") for k in ["either", "mustReject"]])
+known("KF6b-unbuffered-result-transform-crashes", ["C04"],
+      "unbuffered / random-order modes crash inside result_transform on cyclic non-ground programs (IndexError in substitute_simple, AssertionError in result_transform)",
+      "0.2::f(c1). 0.7::f(c3). d(c1). d(c2). d(c3). p(Y,X) :- d(Y), d(X), f(c1), \\+f(Y). q(Y) :- d(Y), p(X,Y), f(X). r(c2) :- p(Y,Y), p(Y,Y), d(Y). r(X) :- d(X), r(c2). query(q(c3)). query(r(W)). query(p(W,V)). evidence(f(c3), false).  random order",
+      match_any=[{"clause": c, "variant": v, "error": e, "site": st, "cyclic": True} for c in ["crash", "mode-dependent"] for v in ("unbuf", "rc", "rand")
+                 for (e, st) in [("IndexError", "engine_unify.py:substitute_simple"), ("AssertionError", "engine_stack.py:result_transform")]])
+known("KF23-mpe-maxsat-zero-probability-for-unsatisfiable-ad-evidence", ["C20"],
+      "MaxSAT MPE on evidence that rules out every head of an annotated disjunction whose probabilities sum to one prints an assignment with probability 0 instead of reporting the model as unsatisfiable",
+      "0.2::d; 0.8::c. query(d). query(c). evidence(c, false). evidence(\\+d).",
+      match={"clause": "answered-unsatisfiable-evidence", "mode": "maxsat", "zero_probability": True})
+known("KF24-dt-keyerror-for-eliminated-decision", ["C21"],
+      "dtproblog raises KeyError (LogicFormula.get_node_by_name) when a decision atom occurs only in a contradictory conjunction (d, \\+d) so that its node is eliminated from the compiled formula",
+      "0.1::f. a :- d1, \\+d1. b :- \\+f, d2. ?::d1. ?::d2. utility(a, -1). utility(d2, 2).",
+      match={"clause": "crash", "error": "KeyError", "site": "formula.py:get_node_by_name"})
 fixed("FX1-break-cycles-true-child", ["C01", "C09"], "29bdee9",
       "AssertionError in LogicFormula.get_node(0) from _break_cycles when a disjunction below an evidence node contains the TRUE node",
       "0.1::h(c1). d(c1). d(c2). p(X) :- d(X), r(c1). p(Y) :- d(Y). r(X) :- p(X). r(Y) :- d(Y), h(X). query(p(c1)). evidence(r(c1)).")
